@@ -585,3 +585,87 @@ theorem install_reaches (mode : Mode) (s s1 : MState) (func fake jit : Nat)
     · exact ⟨2 + 2, _, by omega, by rw [run_add, r1]; exact r2, rfl, trans _ _ _ (sameSet c jit jit) (sameSet _ fake fake)⟩
 
 end Inj.Machine
+
+namespace Inj.Machine
+open Inj
+
+/-! ## the forced-boolean stub (C10) -/
+
+theorem holds8 {m : Nat → Nat} {a b0 b1 b2 b3 b4 b5 b6 b7 : Nat} (h : X86.Holds m a [b0,b1,b2,b3,b4,b5,b6,b7]) :
+    m a = b0 ∧ m (a+1) = b1 ∧ m (a+2) = b2 ∧ m (a+3) = b3 ∧ m (a+4) = b4 ∧ m (a+5) = b5 ∧ m (a+6) = b6 ∧ m (a+7) = b7 := by
+  have h0 := h 0 (by simp); have h1 := h 1 (by simp); have h2 := h 2 (by simp)
+  have h3 := h 3 (by simp); have h4 := h 4 (by simp); have h5 := h 5 (by simp)
+  have h6 := h 6 (by simp); have h7 := h 7 (by simp)
+  simp at h0 h1 h2 h3 h4 h5 h6 h7
+  exact ⟨h0, h1, h2, h3, h4, h5, h6, h7⟩
+
+/-- `mov rax, imm32(v); ret`: rax = v, control returns to the address on top of the stack, the
+    stack pointer is popped, nothing else changes -/
+theorem boolStub_run (m : Nat → Nat) (a : Nat) (v : Bool) (c : X86.Cpu)
+    (hm : X86.Holds m a (X86.boolStub v)) (hc : c.rip = a) :
+    X86.run m 2 c = some { c with rip := X86.rd64 m (c.gpr 4),
+                                  gpr := X86.setReg (X86.setReg c.gpr 0 (if v then 1 else 0)) 4 ((c.gpr 4 + 8) % 18446744073709551616) } := by
+  rw [X86.boolStub_eq] at hm
+  obtain ⟨h0, h1, h2, h3, h4, h5, h6, h7⟩ := holds8 hm
+  have hdec : X86.decode m c.rip = some (X86.Instr.movRaxSImm32 (if v then 1 else 0)) := by
+    unfold X86.decode X86.rd32
+    rw [hc]
+    simp only [h0, h1, h2, show a + 3 + 1 = a + 4 from rfl, show a + 3 + 2 = a + 5 from rfl, show a + 3 + 3 = a + 6 from rfl, h3, h4, h5, h6]
+    cases v <;> simp [de32]
+  have hdec2 : X86.decode m (c.rip + 7) = some X86.Instr.ret := by
+    unfold X86.decode
+    rw [hc]
+    simp [h7]
+  have hs : X86.wrap64 (sext32 (if v then 1 else 0)) = (if v then 1 else 0) := by
+    cases v <;> simp [X86.wrap64, sext32]
+  simp only [X86.run, X86.step, hdec, hdec2, hs]
+  simp [X86.setReg]
+
+theorem install_bool_returns (mode : Mode) (s s1 : MState) (func jit : Nat) (v : Bool)
+    (h : installX86 mode s func (Payload.bool v) jit = some s1)
+    (hdis : ∀ x, (jit ≤ x ∧ x < jit + 4096) → ¬ (func ≤ x ∧ x < func + 12))
+    (hf : func < 18446744073709551616) (hj : jit < 18446744073709551616)
+    (c : X86.Cpu) (hc : c.rip = func) :
+    ∃ k c', k ≤ 4 ∧ X86.run s1.mem k c = some c' ∧
+      c'.rip = X86.rd64 s1.mem (c.gpr 4) ∧ c'.gpr 0 = (if v then 1 else 0) ∧
+      c'.gpr 4 = (c.gpr 4 + 8) % 18446744073709551616 ∧
+      (∀ i, i ≠ 0 → i ≠ 4 → c'.gpr i = c.gpr i) ∧ c'.xmm = c.xmm ∧ c'.flags = c.flags := by
+  obtain ⟨code, br, hcode, hbr, hmem, _, _, _⟩ := installX86_spec mode s s1 func (Payload.bool v) jit h
+  simp only [payloadCode] at hcode
+  injection hcode with hcode; subst hcode
+  have hbl := X86.genBranch_len mode func jit br hbr
+  have hold1 : X86.Holds s1.mem func br := by
+    intro i hi
+    rw [hmem, writeMem_in _ _ _ _ (by omega) (by omega)]
+    congr 1; omega
+  have hlen8 : (X86.boolStub v).length = 8 := by rw [X86.boolStub_eq]; rfl
+  have hold2 : X86.Holds s1.mem jit (X86.boolStub v) := by
+    intro i hi
+    have hns := hdis (jit + i) ⟨by omega, by omega⟩
+    rw [hmem, writeMem_out _ _ _ _ (by omega)]
+    unfold afterJit
+    rw [writeMem_in _ _ _ _ (by omega) (by omega)]
+    congr 1; omega
+  rcases X86.genBranch_run mode func jit br hf hj hbr s1.mem hold1 c hc with r1 | r1
+  · have r2 := boolStub_run s1.mem jit v { c with rip := jit } hold2 rfl
+    have hrun : X86.run s1.mem (1 + 2) c = some
+        { c with rip := X86.rd64 s1.mem (c.gpr 4),
+                 gpr := X86.setReg (X86.setReg c.gpr 0 (if v then 1 else 0)) 4 ((c.gpr 4 + 8) % 18446744073709551616) } := by
+      rw [run_add, r1]; exact r2
+    refine ⟨1 + 2, _, by omega, hrun, rfl, ?_, ?_, ?_, rfl, rfl⟩
+    · simp [X86.setReg]
+    · simp [X86.setReg]
+    · intro i h0 h4; simp [X86.setReg, h0, h4]
+  · have r2 := boolStub_run s1.mem jit v { c with rip := jit, gpr := X86.setReg c.gpr 0 jit } hold2 rfl
+    have hrun : X86.run s1.mem (2 + 2) c = some
+        { c with rip := X86.rd64 s1.mem (X86.setReg c.gpr 0 jit 4),
+                 gpr := X86.setReg (X86.setReg (X86.setReg c.gpr 0 jit) 0 (if v then 1 else 0)) 4
+                          ((X86.setReg c.gpr 0 jit 4 + 8) % 18446744073709551616) } := by
+      rw [run_add, r1]; exact r2
+    refine ⟨2 + 2, _, by omega, hrun, ?_, ?_, ?_, ?_, rfl, rfl⟩
+    · simp [X86.setReg]
+    · simp [X86.setReg]
+    · simp [X86.setReg]
+    · intro i h0 h4; simp [X86.setReg, h0, h4]
+
+end Inj.Machine
